@@ -401,11 +401,13 @@ Definition ss_row (o : ss_opts) (s : ss_state) (r : row) : ss_state * list row :
                     else ss_window_row o gidx0 x (get r (ss_field o)) in
   ((gidx0 + 1)%Z, bk, ss_put m0 k x', [set_field r (ss_out o) res]).
 
-(* streamstatscommand.go Process: `p.currentBucketKey = ""` and `p.currentIndex = 0`
-   at the start of EVERY call, i.e. of every batch (lines 110-112), while the window
-   elements keep the indices of the batches before and the statistics survive.
-   [reset_per_batch = true] is the code; false is the command with index and
-   previous key running over the whole stream. *)
+(* streamstatscommand.go Process.  [reset_per_batch = false] is the code (after the
+   fix "streamstats state runs across batches"): p.currentIndex and p.currentBucketKey
+   keep their values from one Process() call to the next, like the window elements and
+   the running statistics.  [reset_per_batch = true] is the code BEFORE that fix, kept
+   as documentation: it set `p.currentBucketKey = ""` and `p.currentIndex = 0` at the
+   start of EVERY call, i.e. of every batch, while the window elements kept the indices
+   of the batches before. *)
 Definition streamstats_cmd (reset_per_batch : bool) (o : ss_opts) : command :=
   mkCmd ss_state (0%Z, None, [])
     (fun s b =>
